@@ -628,3 +628,83 @@ def staging_collision(chk, prop):
                               {"input": {"part": "staging-collision", "package": pk, "files": files, "commands": [["run", "//%s:e" % pk], ["restore", os.path.basename(arch)]]},
                                "impl_observation": {"exit": rr.code, "rows_before": rows_b, "rows_after": rows_a, "dirs_before": sorted(snaps_b), "dirs_after": sorted(snaps_a)},
                                "oracle_verdict": what}, match_key={"part": "staging-collision", "package": pk}, size=0)
+
+
+def equal_timestamps_across_tasks(chk, prop):
+    """A version is identified by (task, timestamp): two DIFFERENT tasks may carry the same timestamp (concurrent
+    `cond run` invocations; a version restored from another checkout whose number coincides with a local one) and are
+    two versions.  State: three tasks of two packages with recorded versions, two of the timestamps shared between tasks
+    (rows and directories as Conductor writes them), plus one unrecorded output.  Then:
+      cond gc            removes the unrecorded output and NO recorded version's directory;
+      cond archive       lists every recorded version's directory (one tar member per row) and its index has every row;
+      cond restore       into an empty checkout records every version, each with its directory.
+    (Seeds C08/k and C11/l: get_all_versions() collected the rows in a dict keyed by the timestamp alone.)"""
+    files = {"COND": 'run_experiment(name="a", run="echo a > $COND_OUT/r")\nrun_experiment(name="b", run="echo b > $COND_OUT/r")\n',
+             "p/COND": 'run_experiment(name="a", run="echo pa > $COND_OUT/r")\n'}
+    rows = [("//:a", 1700000000), ("//:b", 1700000000), ("//p:a", 1700000000), ("//:a", 1700000001), ("//p:a", 1700000002), ("//:b", 1700000002)]
+
+    def build(name, with_rows):
+        root = implrun.make_project(files, name=name)
+        os.makedirs(os.path.join(root, OUT, "p"), exist_ok=True)
+        conn = sqlite3.connect(os.path.join(root, OUT, INDEX))
+        conn.execute("CREATE TABLE version_index (task_identifier TEXT NOT NULL, timestamp INTEGER NOT NULL, git_commit_hash TEXT, has_uncommitted_changes INTEGER NOT NULL, PRIMARY KEY (task_identifier, timestamp))")
+        conn.execute("PRAGMA user_version = 2")
+        if with_rows:
+            conn.executemany("INSERT INTO version_index VALUES (?, ?, NULL, 0)", rows)
+        conn.commit()
+        conn.close()
+        if with_rows:
+            for t, ts in rows:
+                d = os.path.join(root, OUT, vdir_rel(t, ts))
+                os.makedirs(d)
+                with open(os.path.join(d, "r"), "w") as fh:
+                    fh.write("%s %d\n" % (t, ts))
+        return root
+
+    src = build("eqts-src", True)
+    failed = os.path.join(src, OUT, "b.task.1700000001")       # an output no row records
+    os.makedirs(failed)
+    problems = []
+    before = version_snaps(src)
+    g = implrun.run_cond(["gc"], src)
+    after = version_snaps(src)
+    chk.coverage["evaluations"] += 1
+    chk.count("equal-timestamps", "gc")
+    for t, ts in rows:
+        rel = vdir_rel(t, ts)
+        if after.get(rel) != before.get(rel):
+            problems.append("`cond gc` %s the directory of the recorded version %s@%d" % ("removed" if rel not in after else "changed", t, ts))
+    if g.code != 0 or os.path.isdir(failed):
+        problems.append("`cond gc` exited %s and %s the unrecorded output b.task.1700000001" % (g.code, "kept" if os.path.isdir(failed) else "removed"))
+    apath = os.path.join(os.path.dirname(src), "all.tar.gz")
+    a = implrun.run_cond(["archive", "-o", apath], src)
+    chk.coverage["evaluations"] += 1
+    chk.count("equal-timestamps", "archive")
+    if a.code != 0 or not os.path.isfile(apath):
+        problems.append("`cond archive` failed: exit %s %s" % (a.code, implrun.strip_ansi(a.err)[-200:]))
+    else:
+        want_members = {vdir_rel(t, ts) for t, ts in rows}
+        d = unpack(apath)
+        present = {rel for rel in want_members if os.path.isdir(os.path.join(d, rel))}
+        arows = sorted((r[0], r[1]) for r in raw_rows(os.path.join(d, AINDEX)))
+        if arows != sorted(rows):
+            problems.append("the archive's index holds %r, the recorded versions are %r" % (arows, sorted(rows)))
+        if present != want_members:
+            problems.append("the archive lacks the directories of recorded versions: %r" % sorted(want_members - present))
+        dst = build("eqts-dst", False)
+        r = implrun.run_cond(["restore", apath], dst)
+        chk.coverage["evaluations"] += 1
+        chk.count("equal-timestamps", "restore")
+        got = sorted((x[0], x[1]) for x in project_rows(dst))
+        nodir = [k for k in got if not os.path.isdir(os.path.join(dst, OUT, vdir_rel(*k)))]
+        if r.code == 0 and (got != sorted(rows) or nodir):
+            problems.append("`cond restore` reported success: recorded %r; recorded versions without a directory: %r" % (got, nodir))
+        elif r.code != 0 and got:
+            problems.append("`cond restore` failed (exit %s) and left recorded versions %r" % (r.code, got))
+        elif r.code != 0 and present == want_members and arows == sorted(rows):
+            problems.append("`cond restore` of a complete archive failed: %s" % implrun.strip_ansi(r.err)[-200:])
+    for msg in problems[:3]:
+        chk.violation("impl-violation", "versions of different tasks with the same timestamp: %s" % msg,
+                      {"input": {"part": "equal-timestamps", "rows": rows, "files": files}, "oracle_verdict": msg}, match_key={"part": "equal-timestamps"}, size=4)
+    if not problems:
+        chk.coverage["traces_validated_against_impl"] = chk.coverage.get("traces_validated_against_impl", 0) + 3
